@@ -253,6 +253,9 @@ func (idx *timeSeriesIndex) Load(
 	lowContainer := idx.ids.Keys().GetContainerAtIndex(highContainerIdx)
 	memTimeSeriesIDs := idx.ids.Values()[highContainerIdx]
 
+	// field entries are shared by the data load tasks of all series containers(run concurrently),
+	// the reader of the current write buffer must be task local.
+	var page fieldEntry
 	ctx.IterateLowSeriesIDs(lowContainer, func(seriesIdxFromQuery uint16, seriesIdxFromStorage int) {
 		memTimeSeriesID := memTimeSeriesIDs[seriesIdxFromStorage]
 		for _, fm := range fields {
@@ -268,8 +271,8 @@ func (idx *timeSeriesIndex) Load(
 			// read field current write buffer
 			buf, ok := fm.getPage(memTimeSeriesID)
 			if ok {
-				fm.Reset(buf)
-				ctx.DownSampling(slotRange, seriesIdxFromQuery, int(fm.field.Index), fm)
+				page.Reset(buf)
+				ctx.DownSampling(slotRange, seriesIdxFromQuery, int(fm.field.Index), &page)
 			}
 		}
 	})
